@@ -430,7 +430,10 @@ Definition do_epoll_wait (s : core) (call maxev timeout : Z) : wres :=
   | R s =>
       let n := nwait (kern s) in
       let s := emit s (TWait n call maxev timeout (interest_of (kern s)) (ground (kern s))) in
-      if mem_z n (eintr_waits (flt (kern s))) then WE (emit s (TRet None [] (clock (kern s))))
+      if mem_z n (eintr_waits (flt (kern s))) then
+        (* the interruption arrives after half of a finite timeout has elapsed *)
+        let s := if 0 <? timeout then set_kern s (k_set_clock (kern s) (clock (kern s) + timeout / 2)) else s in
+        WE (emit s (TRet None [] (clock (kern s))))
       else match k_epoll_sleep (kern s) maxev timeout (sc_rot sc n) with
            | WReady k1 evs =>
                WR (emit (set_kern s k1) (TRet (Some (Z.of_nat (length evs))) (map (fun e => fst (fst e)) evs) (clock k1))) evs
@@ -511,7 +514,9 @@ Definition do_poll_wait (s : core) (call timeout : Z) : res * bool :=
   | R s =>
       let n := nwait (kern s) in
       let s := emit s (TWait n call (Z.of_nat (length (pfds s))) timeout (interest_of_pfds (pfds s)) (ground (kern s))) in
-      if mem_z n (eintr_waits (flt (kern s))) then (R (invalidate_now (emit s (TRet None [] (clock (kern s))))), true)
+      if mem_z n (eintr_waits (flt (kern s))) then
+        let s := if 0 <? timeout then set_kern s (k_set_clock (kern s) (clock (kern s) + timeout / 2)) else s in
+        (R (invalidate_now (emit s (TRet None [] (clock (kern s))))), true)
       else match k_poll_sleep (kern s) (pfds s) timeout with
            | PHang => (halt s THang, true)
            | PReady k1 revs =>
